@@ -193,8 +193,12 @@ class NUTS(Sampler):
             raise ValueError('Target must have logd and gradient methods.')
 
     def reinitialize(self):
+        # max_depth is a state key (it is part of checkpoints) but also a configuration parameter:
+        # the parent reset sets all state keys to None, which would silently revert it to the default
+        max_depth = self.max_depth
         # Call the parent reset method
         super().reinitialize()
+        self.max_depth = max_depth
         # Reset NUTS run diagnostic attributes
         self._reset_run_diagnostic_attributes()
 
